@@ -176,7 +176,7 @@ impl Oracle for Retention {
                 _ => {}
             }
         }
-        if let StepRes::Interned { real, .. } = cx.res {
+        if let StepRes::Interned { real: Ok(real), .. } = cx.res {
             // Interning from outside any function: a NEW value is never reclaimable; for a value
             // that already exists the statement (which speaks about functions) decides nothing
             // and salsa leaves its reclaimability unchanged — only its last use is refreshed.
@@ -226,5 +226,7 @@ pub fn spec_c09() -> PropSpec {
         tape_len: 500,
         make: || vec![Box::new(super::c06::Aux(Box::new(ValueOracle::new()))), Box::new(Retention::new())],
         nt_rule: "",
+        engine: "seq",
+        runner: None,
     }
 }
